@@ -129,7 +129,8 @@ Fixpoint zipset (old cur : list bool) : list bool :=
 
 Definition blk_enter (e : env) (b : blk) (s : state) : option (state * saved) :=
   match b with
-  | BTempParams p => Some (upd_vars (set_all p (vars s)) s, SvMap (get_all_dic s))
+  | BTempParams p =>        (* {k: vm.get(k, val_in_fit=False) for k in vm.variables}: the stored values *)
+      Some (upd_vars (set_all p (vars s)) s, SvMap (vars s))
   | BVmTempParams p =>      (* self.get(i, val_in_fit=False) raises for an unknown name *)
       if forallb (fun k => has_key k (vars s)) (keys p)
       then Some (upd_vars (set_all p (vars s)) s, SvMap (map (fun kv => (fst kv, getv (fst kv) (vars s))) p))
@@ -254,6 +255,10 @@ Section Old.
       (fun s => Some (upd_vars (set_all p (vars s)) s,
                       map (fun kv => (fst kv, y2x (getv (fst kv) (vars s)))) p))
       (fun m s => upd_vars (set_all m (vars s)) s) body.
+  (* F11: AbsPDF.temp_params saved get_params() = the MASKED view (and, before F3, had no finally) *)
+  Definition old_amp_temp_params (p : amap) (body : comp) : comp :=
+    with_block (fun s => Some (upd_vars (set_all p (vars s)) s, get_all_dic s))
+               (fun m s => upd_vars (set_all m (vars s)) s) body.
   (* F4: cal_fitfractions ended with amp.set_used_res(amp.used_res) = all resonances, no finally *)
   Definition old_fitfractions (all_res res : list Z) (nb : nat) : comp :=
     then_restore (run_steps ev nb (set_used_res e res [] :: ff_pair_steps e res)) (set_used_res e all_res []).
@@ -279,15 +284,3 @@ Definition check_run (e : env) (p : prog) (k : option nat) (s0 : state)
   let ev := fun n (_ : state) => match k with Some k' => Nat.eqb n k' | None => false end in
   let '((_, tr), r) := run e ev p (O, []) s0 in
   list_eqb state_eqb (rev tr) otrace && state_eqb (st_of r) ofinal && Bool.eqb (is_exn r) oexn.
-(* the program respects the side condition of the restoration theorem: no AbsPDF.temp_params
-   inside an active parameter mask *)
-Fixpoint safe (m : bool) (p : prog) : bool :=
-  match p with
-  | PEval => true
-  | PSeq a b => safe m a && safe m b
-  | PWith (BTempParams _) body => negb m && safe m body
-  | PWith (BMaskParams _) body => safe true body
-  | PWith _ body => safe m body
-  | PHelper _ => true
-  | PFactorIter body => safe true body
-  end.
